@@ -289,16 +289,11 @@ class SMUserList(UserList, ABC):
         """
 
         if isinstance(i, slice):
-            if i.stop is None:
-                # stop not given
-                end = len(self)
-            elif i.stop < 0:
-                # stop is negative, -
-                end = i.stop + len(self) + 1
-            else:
-                # stop is positive, use it directly
-                end = i.stop
-            return self.__class__([self.data[k] for k in range(i.start or 0, end, i.step or 1)])
+            # let the underlying Python list do the slice arithmetic
+            data = self.data[i]
+            if len(data) == 0:
+                return self.__class__.Empty()
+            return self.__class__(data)
         else:
             return self.__class__(self.data[i])
         
